@@ -15,7 +15,7 @@ RULE = ('TLC enumerates every initial configuration (operand shapes incl. size-1
 def runs(tier):
     q = tier == 'quick'
     base = dict(MaxD=3, DimsR={1, 2}, DimsC={1, 2}, RanksS={1, 2}, Seeds={1}, MaxDepth=1, EmitAll=False,
-                Vias={'matmul'}, QL=2, MaxDB=2, OWs={False, True}, Lean=False)
+                Vias={'matmul'}, QL=2, MaxDB=2, OWs={False, True}, Lean=False, IslLevel=0)
     kp = {('real', 'real'), ('complex', 'real')}
     out = []
     ow = {False} if q else {False, True}
